@@ -44,7 +44,7 @@ func runC10(c *eng.Ctx, tier string) {
 	// ... and a cache that did not decode is discarded as a whole (C13's rule)
 	includeOnly(c, "R-C10-9", func(sc *eng.Ctx) { runC13(sc, "quick") }, "R-C13-5")
 	// struct-tagged secrets are declared under the very names they are later applied under
-	includeOnly(c, "R-C10-10", func(sc *eng.Ctx) { runC20(sc, "quick") }, "R-C20-2")
+	includeOnly(c, "R-C10-10", func(sc *eng.Ctx) { runC20(sc, "quick") }, "R-C20-2", "R-C20-9")
 	// R-C10-7
 	for _, f := range []*ssa.Function{ns, init, anchor(p, setecPkg, "StoreConfig.secretNames"), anchor(p, setecPkg, "(*Store).loadCache"), anchor(p, setecPkg, "(*Store).isActiveSetValid")} {
 		if f == nil {
@@ -149,7 +149,7 @@ func c10Validation(c *eng.Ctx, ns *ssa.Function) {
 		if op, x, y, isCmp := cond.Cmp(); isCmp {
 			if k, isK := eng.ConstInt(y); isK && k == 0 {
 				if args, isLen := eng.BuiltinCall(instrOf(eng.Origin(x)), "len"); isLen {
-					if call, idx := eng.TupleCall(args[0]); call != nil && call == namesCall && idx == 0 {
+					if call, part := namesPartOf(args[0]); call != nil && call == namesCall && part == "names" {
 						// assume len == 0
 						return op == token.EQL || op == token.LEQ
 					}
@@ -194,9 +194,15 @@ func c10Validation(c *eng.Ctx, ns *ssa.Function) {
 		}
 		return call, o.Pkg != nil && o.Pkg.Pkg.Path() == "slices" && o.Name() == name
 	}
+	snErr := errResultIndex(sn)
 	for _, r := range eng.Returns(sn) {
 		rv := eng.RetVals(r)
-		if !eng.IsNilConst(eng.Origin(rv[2])) {
+		if !eng.IsNilConst(eng.Origin(rv[snErr])) {
+			continue
+		}
+		rv = []ssa.Value{namesReturned(r, "names")}
+		if rv[0] == nil {
+			c.Undecided("R-C10-1", sn, r.Pos(), "name list returned by the name collection", "not found in the return")
 			continue
 		}
 		cc, isCompact := isSlicesCall(rv[0], "Compact")
@@ -215,7 +221,12 @@ func c10Validation(c *eng.Ctx, ns *ssa.Function) {
 	okEmpty := false
 	for _, r := range eng.Returns(sn) {
 		rv := eng.RetVals(r)
-		if !eng.IsNilConst(eng.Origin(rv[2])) {
+		if !eng.IsNilConst(eng.Origin(rv[snErr])) {
+			continue
+		}
+		if nl := namesReturned(r, "names"); nl != nil {
+			rv = []ssa.Value{nl, nil, rv[snErr]}
+		} else {
 			continue
 		}
 		// success return: rv[0] is the final list.  Either the return is on the
@@ -235,7 +246,7 @@ func c10Validation(c *eng.Ctx, ns *ssa.Function) {
 				if _, t, _ := eng.CondOf(cond.If.Cond, i == 0).Bool(); !t {
 					continue
 				}
-				if r2, isR := succ.Instrs[len(succ.Instrs)-1].(*ssa.Return); isR && nonNilAt(eng.RetVals(r2)[2], eng.FactsAt(r2)) == eng.Yes {
+				if r2, isR := succ.Instrs[len(succ.Instrs)-1].(*ssa.Return); isR && nonNilAt(eng.RetVals(r2)[snErr], eng.FactsAt(r2)) == eng.Yes {
 					okEmpty = true
 				}
 			}
@@ -259,7 +270,7 @@ func c10Validation(c *eng.Ctx, ns *ssa.Function) {
 					// true edge returns a non-nil error
 					succ := ifi.Block().Succs[0]
 					if r2, isR := succ.Instrs[len(succ.Instrs)-1].(*ssa.Return); isR {
-						if nonNilAt(eng.RetVals(r2)[2], eng.FactsAt(r2)) == eng.Yes {
+						if nonNilAt(eng.RetVals(r2)[snErr], eng.FactsAt(r2)) == eng.Yes {
 							okEmpty = true
 						}
 					}
@@ -317,6 +328,13 @@ func isWaiterX(f *ssa.Function) (durIdx int, fld *eng.FieldRef, ok bool) {
 			case st.Dir == types.RecvOnly && call != nil && eng.CalleeIs(&call.Call, "time", "After"):
 				tv = call.Call.Args[0]
 			default:
+				// the channel of a timer made for this wait: time.NewTimer(d).C
+				if fr, base, isF := eng.LoadedField(st.Chan); st.Dir == types.RecvOnly && isF && fr.Name == "C" && eng.IsNamed(fr.Owner, "time", "Timer") {
+					if tc, _ := eng.TupleCall(base); tc != nil && eng.CalleeIs(&tc.Call, "time", "NewTimer") && eng.InstrDominates(tc, sel) {
+						tv = tc.Call.Args[0]
+						continue
+					}
+				}
 				other = true
 			}
 		}
